@@ -40,7 +40,7 @@ def bounds(run):
           "modulo_counter": {"start": MC_START, "modulo": MC_MOD, "step": MC_STEP,
                              "outputs": run.pick(24, 60)},
           "table": {"sizes": "1..5", "cycles": [1, 2]},
-          "resample": {"lengths": "0..%d" % run.pick(10, 14), "ratios": RATIOS, "orders": [0, 1, 2, 3]}}
+          "resample": {"lengths": "0..%d" % run.pick(12, 18), "ratios": RATIOS, "orders": [0, 1, 2, 3]}}
 
 
 def q(s):
@@ -463,7 +463,7 @@ def run_karplus(case):
 
 
 # ------------------------------------------------------------------ resample
-RATIOS = [("1", "1"), ("1", "2"), ("2", "1"), ("2", "3"), ("3", "2"), ("1", "3"), ("5", "4")]
+RATIOS = [("1", "1"), ("1", "2"), ("2", "1"), ("2", "3"), ("3", "2"), ("1", "3"), ("5", "4"), ("7", "2"), ("9", "2"), ("4", "1")]
 
 
 def lagrange_basis(p, j, t):
@@ -498,7 +498,7 @@ def ref_resample(x, steps, p, zero):
 
 
 def gen_resample(run):
-  nmax = run.pick(10, 14)
+  nmax = run.pick(12, 18)
   for p in (0, 1, 2, 3):
     for old, new in RATIOS:
       for n in range(0, nmax + 1):
